@@ -93,20 +93,21 @@ const (
 var BackendNames = []string{"mem", "fs", "fs-binary", "pg"}
 
 type Cfg struct {
-	OutputSize     uint32 `json:"output_size"`
-	CacheSize      uint32 `json:"cache_size"`
-	FlagCount      uint32 `json:"flag_count"`
-	Language       string `json:"language,omitempty"`
-	MenuSep        string `json:"menu_sep,omitempty"`
-	Backend        int    `json:"backend"`
-	FinishAlways   bool   `json:"finish_always,omitempty"`   // call Finish also after a failed Exec/Flush
-	SetSession     bool   `json:"set_session,omitempty"`     // caller sets the session on the store handle (as examples/http does)
-	First          bool   `json:"first,omitempty"`           // every engine is built WithFirst(a benign scripted pre-VM function)
-	FirstContent   string `json:"first_content,omitempty"`   // what that function returns ("-" = empty content; unset = "first")
-	ResetOnEmpty   bool   `json:"reset_on_empty,omitempty"`  // engine.Config.ResetOnEmptyInput
-	FinishLate     bool   `json:"finish_late,omitempty"`     // Finish is called once, when an engine is retired (as engine.Loop's defer), not after every request
-	KeepPersister  bool   `json:"keep_persister,omitempty"`  // every session keeps its own persist.Persister between requests and selects its session through it (Persister.WithSession) before each request
-	SharePersister bool   `json:"share_persister,omitempty"` // one persist.Persister (WithFlush) is reused for every engine of every session of the world
+	OutputSize      uint32 `json:"output_size"`
+	CacheSize       uint32 `json:"cache_size"`
+	FlagCount       uint32 `json:"flag_count"`
+	Language        string `json:"language,omitempty"`
+	MenuSep         string `json:"menu_sep,omitempty"`
+	Backend         int    `json:"backend"`
+	FinishAlways    bool   `json:"finish_always,omitempty"`     // call Finish also after a failed Exec/Flush
+	SetSession      bool   `json:"set_session,omitempty"`       // caller sets the session on the store handle (as examples/http does)
+	First           bool   `json:"first,omitempty"`             // every engine is built WithFirst(a benign scripted pre-VM function)
+	FirstContent    string `json:"first_content,omitempty"`     // what that function returns ("-" = empty content; unset = "first")
+	ResetOnEmpty    bool   `json:"reset_on_empty,omitempty"`    // engine.Config.ResetOnEmptyInput
+	FinishLate      bool   `json:"finish_late,omitempty"`       // Finish is called once, when an engine is retired (as engine.Loop's defer), not after every request
+	SessionViaStore bool   `json:"session_via_store,omitempty"` // with KeepPersister and SetSession: the session is selected on the store handle, not through the persister
+	KeepPersister   bool   `json:"keep_persister,omitempty"`    // every session keeps its own persist.Persister between requests and selects its session through it (Persister.WithSession) before each request
+	SharePersister  bool   `json:"share_persister,omitempty"`   // one persist.Persister (WithFlush) is reused for every engine of every session of the world
 }
 
 // ---------------------------------------------------------------------------------------
@@ -174,7 +175,7 @@ type Sess struct {
 	FirstBlocked   int
 	keptPe         *persist.Persister
 	keptPeStore    db.Db
-	PosLog        []Pos // position after every request
+	PosLog         []Pos // position after every request
 }
 
 type Pos struct {
@@ -475,7 +476,8 @@ func (s *Sess) build() error {
 		if s.Store == nil {
 			return fmt.Errorf("no store")
 		}
-		if s.W.Cfg.SetSession && !s.W.Cfg.KeepPersister {
+		viaPe := s.W.Cfg.KeepPersister && !s.W.Cfg.SessionViaStore
+		if s.W.Cfg.SetSession && !viaPe {
 			s.Store.SetSession(s.ID)
 		}
 		if s.W.Cfg.KeepPersister {
@@ -484,7 +486,9 @@ func (s *Sess) build() error {
 				s.keptPeStore = s.Store
 			}
 			s.Pe = s.keptPe
-			s.Pe.WithSession(s.ID)
+			if s.W.Cfg.SetSession && viaPe {
+				s.Pe.WithSession(s.ID)
+			}
 		} else if s.W.Cfg.SharePersister {
 			// a gateway that keeps one flushing persister over its one store handle
 			if s.W.sharedPe == nil || s.W.sharedPeStore != s.Store {
